@@ -230,7 +230,9 @@ impl Ctx {
         let next = AtomicU64::new(0);
         std::thread::scope(|s| {
             for _ in 0..self.threads {
-                s.spawn(|| {
+                // generous stacks: the reference evaluator and the builder recurse over the grammar (debug-sized
+                // frames in the `fast` profile)
+                let _ = std::thread::Builder::new().stack_size(256 << 20).spawn_scoped(s, || {
                     crate::run::install_panic_hook();
                     let mut l = Local::default();
                     loop {
@@ -259,7 +261,9 @@ impl Ctx {
         let next = AtomicU64::new(0);
         std::thread::scope(|s| {
             for _ in 0..self.threads {
-                s.spawn(|| {
+                // generous stacks: the reference evaluator and the builder recurse over the grammar (debug-sized
+                // frames in the `fast` profile)
+                let _ = std::thread::Builder::new().stack_size(256 << 20).spawn_scoped(s, || {
                     crate::run::install_panic_hook();
                     let mut l = Local::default();
                     loop {
